@@ -449,7 +449,12 @@ def oracle_H(ctx, em, full, low):
     (Not asked of the matrix-unfolding schemes: their regularisation of the inverse is an absolute epsilon.)"""
     rng = ctx.rng
     ctx.cls("H:homogeneity")
-    cands = [s for s in evolve.scheme_list() if s.family in ("pc", "ps", "ps2")]
+    # (two-site scheme: only with the Krylov local solver, whose arithmetic rescales exactly with a power of two.  The ODE
+    # solvers have an ABSOLUTE tolerance; the 1e-10 difference that makes is enough to turn the noise directions the
+    # two-site update keeps for its enlarged bonds, and from a product state the result then moves by the scheme's own
+    # projection error, measured 1e-3 .. 8e-3 - run-to-run noise of the method, not an inhomogeneity)
+    cands = [s for s in evolve.scheme_list() if s.family in ("pc", "ps") or s.name == "ps2-krylov"]
+    cands += [s for s in cands if s.name == "ps2-krylov"] * 4
     sc = cands[int(rng.integers(0, len(cands)))]
     product = bool(rng.random() < 0.5) and sc.family != "ps"
     s0 = low if product else full
@@ -539,6 +544,11 @@ def run_case(ctx):
         if ok and not states.check_labels(g):
             full = g
             ctx.cls("gauge:non-canonical-complex" if cplx else "gauge:non-canonical-real")
+            # the schemes that work with explicit overlap matrices see such a gauge directly: make sure one of them runs
+            ov = [s_ for s_ in all_s if s_.family == "vmf" and s_.name.endswith("-ovlp")]
+            if ov and not any(s_.family == "vmf" and s_.name.endswith("-ovlp") for s_ in chosen):
+                chosen = chosen + [ov[int(rng.integers(0, len(ov)))]]
+            ctx.cls("gauge:non-canonical|vmf-with-overlap-matrices|to_right=" + str(bool(full.to_right)))
     first = None
     for sc in chosen:
         if sc.family == "pc" and rng.random() < 0.4:
